@@ -671,6 +671,62 @@ def check_cross_ns(ctx):
                     break
 
 
+# ------------------------------------------------------------------ (g) simpleContent restrictions with an inner simpleType
+SC_XSD = ('<xs:schema xmlns:xs="http://www.w3.org/2001/XMLSchema"><xs:simpleType name="il"><xs:list itemType="xs:int"/></xs:simpleType>'
+          '<xs:simpleType name="un"><xs:union memberTypes="xs:int xs:date"/></xs:simpleType>'
+          '<xs:complexType name="B"><xs:simpleContent><xs:extension base="%s"><xs:attribute name="a" type="xs:string"/></xs:extension>'
+          '</xs:simpleContent></xs:complexType><xs:complexType name="D"><xs:simpleContent><xs:restriction base="B"><xs:simpleType>%s'
+          '</xs:simpleType>%s</xs:restriction></xs:simpleContent></xs:complexType><xs:element name="r" type="B"/><xs:element name="rd" type="D"/></xs:schema>')
+SC_BASES = ['xs:int', 'xs:string', 'xs:decimal', 'il', 'un', 'xs:anySimpleType', 'xs:token']
+SC_INNER = ['<xs:restriction base="xs:short"/>', '<xs:restriction base="xs:int"><xs:maxInclusive value="5"/></xs:restriction>',
+            '<xs:restriction base="xs:string"/>', '<xs:restriction base="xs:token"/>', '<xs:list itemType="xs:int"/>',
+            '<xs:list itemType="xs:string"/>', '<xs:restriction base="il"><xs:maxLength value="2"/></xs:restriction>',
+            '<xs:restriction base="un"><xs:enumeration value="1"/></xs:restriction>', '<xs:union memberTypes="xs:int xs:short"/>',
+            '<xs:union memberTypes="xs:int xs:string"/>', '<xs:restriction base="xs:date"/>', '<xs:restriction base="xs:decimal"/>']
+SC_VALUES = ['1', '40000', '1 2 3', 'abc', '2020-01-01', '', ' 1 ', '1.5', 'a  b', '1 2']
+
+
+def subject_simple_content(case):
+    import xmlschema
+    out = {}
+    xsd = SC_XSD % (case['base'], case['inner'], case['facet'])
+    for version, cls in (('1.0', xmlschema.XMLSchema10), ('1.1', xmlschema.XMLSchema11)):
+        try:
+            s = cls(xsd)
+        except xmlschema.XMLSchemaException as e:
+            out[version] = {'build': common.exc_class(e)}
+            continue
+        bad = []
+        for v in SC_VALUES:
+            try:
+                vd, vb = s.is_valid('<rd>%s</rd>' % v), s.is_valid('<r>%s</r>' % v)
+            except Exception as e:  # noqa
+                bad.append([v, 'EXC ' + common.exc_class(e)])
+                continue
+            if vd and not vb:
+                bad.append([v, 'valid for the restricted type, invalid for the base type'])
+        out[version] = {'build': 'ok', 'bad': bad}
+    return out
+
+
+def check_simple_content(ctx):
+    cases = [{'base': b, 'inner': i, 'facet': f} for b in SC_BASES for i in SC_INNER for f in ('', '<xs:minLength value="0"/>'[:0])]
+    impl = common.pool_map(subject_simple_content, cases)
+    for c, o in zip(cases, impl):
+        for version in ('1.0', '1.1'):
+            r = o.get(version, {})
+            ctx.count(('sc', c['base'], c['inner'], version), nontrivial=r.get('build') == 'ok')
+            if 'harness_exception' in o:
+                ctx.violation('subject failed: %s' % o['harness_exception'], {'kind': 'simple-content', 'case': c}, no_input=True)
+                break
+            ctx.dist('simpleContent restriction with an inner simpleType', 'accepted' if r.get('build') == 'ok' else 'rejected')
+            if r.get('bad'):
+                v, why = r['bad'][0]
+                ctx.violation('simple content %s restricted with the inner simpleType %s is accepted (XSD %s) but the text %r is %s'
+                              % (c['base'], c['inner'], version, v, why),
+                              {'kind': 'simple-content', 'case': c, 'xsd': SC_XSD % (c['base'], c['inner'], c['facet']), 'impl': r})
+
+
 def gen(ctx):
     rng = ctx.rng
     q = ctx.quick()
@@ -750,6 +806,7 @@ def run(ctx):
     check_redefine(ctx, redefs)
     check_open(ctx, opens)
     check_cross_ns(ctx)
+    check_simple_content(ctx)
     ctx.extra['derivations'] = {'content_models': len(models), 'attribute_pairs': len(attrs), 'facet_pairs': len(facets),
                                 'redefinitions': len(redefs), 'open_content_pairs': len(opens)}
     ctx.assumptions = ['completeness (a sound restriction being accepted) is not required by the property and not judged',
@@ -770,5 +827,7 @@ def replay(ctx, case):
         check_open(ctx, [case['case']])
     elif k == 'cross-ns':
         check_cross_ns(ctx)
+    elif k == 'simple-content':
+        check_simple_content(ctx)
     else:
         check_redefine(ctx, [case['case']])
